@@ -170,8 +170,38 @@ theorem C17_avail (rc : RC) (ac : Nat) (h : availCores rc = some ac) (hc : rc.cp
     · cases h; omega
     · cases h
 
+/-- a pilot given by cores and GPUs is always turned into a job when the blocked cores/GPUs fit the
+    node - in particular on a platform that declares no GPUs per node (the GPU term is skipped and the
+    requested GPU count is passed on) and on one that declares no node size at all -/
+theorem C17_sized_always (rc : RC) (pd : PD) (hn : pd.nodes = 0)
+    (hc : rc.blockedCores = 0 ∨ rc.blockedCores < coresPerNode rc) (hg : rc.blockedGpus ≤ rc.gpn ∨ rc.gpn = 0) :
+    ∃ sz, sizePilot rc pd = .ok sz ∧ (rc.gpn = 0 → sz.totalGpu = pd.gpus ∧ sz.agentGpus = pd.gpus) := by
+  have hac : ∃ ac, availCores rc = some ac := by
+    unfold availCores
+    split
+    · next h => rcases hc with h0 | h1
+                · exact absurd h0 h.2
+                · simp [h1]
+    · exact ⟨_, rfl⟩
+  have hag : ∃ ag, availGpus rc = some ag ∧ (rc.gpn = 0 → ag = 0) := by
+    unfold availGpus
+    split
+    · next h => rcases hg with h0 | h1
+                · exact ⟨rc.gpn - rc.blockedGpus, by simp [h0], fun h2 => absurd h2 h.1⟩
+                · exact absurd h1 h.1
+    · exact ⟨_, rfl, fun h => h⟩
+  obtain ⟨ac, h1⟩ := hac
+  obtain ⟨ag, h2, h3⟩ := hag
+  simp only [sizePilot, h1, h2, reqNodes, hn, ne_eq, not_true_eq_false, if_false]
+  refine ⟨_, rfl, ?_⟩
+  intro h0
+  simp [orElse, h3 h0]
+
 /-! non-vacuity (tests): a Summit-like node, 42 cores x smt 4, 4 blocked, 6 GPUs -/
 example : sizePilot ⟨42, 6, 4, 4, 0⟩ ⟨0, 1000, 40, 1⟩
     = .ok ⟨8, 1312, 48, 164, 7, 1, 1312, 48, 168, 6⟩ := by rfl
+
+/-- GPUs requested on a platform without declared GPUs (an Expanse-like node, 128 cores) -/
+example : sizePilot ⟨128, 0, 1, 0, 0⟩ ⟨0, 256, 4, 0⟩ = .ok ⟨2, 256, 4, 128, 2, 0, 256, 4, 128, 0⟩ := by rfl
 
 end RPVerif.C17
